@@ -15,6 +15,7 @@ BUILDERS = [
     lambda: conc.build_driver("queue"),
     lambda: conc.build_driver("adder"),
     lambda: conc.build_driver("breaker"),
+    lambda: conc.build_driver("pool"),
 ]
 
 def replay(prop_id, path):
